@@ -7,7 +7,13 @@ PID=$1; TIER=${2:-quick}
 for D in /verif/validation/benign/$PID/benign*.diff; do
   WT=/tmp/tryb-$PID-$$
   git -C /repo worktree add -q "$WT" HEAD || exit 2
-  if ! git -C "$WT" apply "$D" 2>/dev/null && ! git -C "$WT" apply -3 "$D" 2>/dev/null; then echo "$PID $(basename $D): PATCH DOES NOT APPLY"; git -C /repo worktree remove --force "$WT"; continue; fi
+  if ! git -C "$WT" apply "$D" 2>/dev/null; then
+    # written against an older HEAD (before a later fix: commit): use that tree
+    git -C /repo worktree remove --force "$WT"
+    git -C /repo worktree add -q "$WT" 71eab2e || exit 2
+    echo "$PID $(basename $D): applied on 71eab2e (does not apply on HEAD)"
+    if ! git -C "$WT" apply "$D" 2>/dev/null; then echo "$PID $(basename $D): PATCH DOES NOT APPLY"; git -C /repo worktree remove --force "$WT"; continue; fi
+  fi
   OUT=$(cd /verif && VERIF_REPO="$WT" VERIF_EVIDENCE_DIR="/dev/shm/ev-benign-$PID-$$" bin/check "$PID" --tier "$TIER" 2>&1)
   echo "$OUT" | grep -E "^VIOLATION|^  witness|INCONC|^C[0-9]+ |by mechanism|KNOWN" | cut -c1-400 | head -8 | sed "s|^|$PID $(basename $D): |"
   rm -rf "/dev/shm/ev-benign-$PID-$$"
